@@ -3,7 +3,15 @@ use crate::comps::*;
 use crate::core::*;
 use crate::family::Family;
 
-pub fn exec_raw<F: Family>(it: &mut Interp<F>, w: usize, name: &str, args: &[String]) -> Option<String> {
+pub fn exec_raw<F: Family + 'static>(it: &mut Interp<F>, w: usize, name: &str, args: &[String]) -> Option<String> {
+    if name == "sched" {
+        // schedules exist for the Reg4 family only
+        let any: &mut dyn std::any::Any = it;
+        return match any.downcast_mut::<Interp<crate::gen_reg4::Reg4>>() {
+            Some(it4) => crate::sched::exec_sched(it4, w, args),
+            None => None,
+        };
+    }
     let world = it.worlds[w].as_mut()?;
     match (name, args.len()) {
         // q <views> <filter> <mode> <epoch|->
